@@ -16,6 +16,11 @@ CHECKS = {
             "with comment/blank/section-break insertions) and seeded random longer texts is parsed by the real parse_to_tree "
             "and by an independent reference parser; trees and refusals must agree. Held = agreed on every text observed.",
             "Trusted: vf/ref/offside.py as the meaning of the offside rule; errors compared by type.", "4/C05"),
+    "C06": ("reference-model monitor (independent ACL coverage model R3) + algebraic laws (ordered subtree, idempotence, merge monotonicity, strict-mode iff) observed on real apply_acl / filter_config",
+            "Random universes of rulebooks give trees with covered, uncovered, negated and near-miss rows and pairs of ACLs over the same vocabulary; the real apply_acl result is compared "
+            "with the reference filter, and the laws of the statement are evaluated on the real outputs themselves. Two mechanisms that break the statement on the unchanged tree are "
+            "recognised by an exact explanatory variant of the reference and listed as known findings; anything else is a violation.",
+            "Trusted: vf/ref/acl.py (R3) incl. its restatement of the ranking heuristic; R1 word-level matching. Juniper inactive: rows not generated.", "4/C06"),
     "C07": ("reference-model monitor (word-level and regex-level restatement of the rule language) over exhaustive pattern x row scope and every shipped rule line",
             "The production regexps, removal templates and reverse recognisers of compiled rules are observed on an exhaustive small scope of "
             "patterns x rows, through all five text compilers, and on every rule line of every shipped rule file (rows synthesised from the line "
